@@ -34,6 +34,8 @@ Lemma sw_enc23_spec : below 12 (fun d => encode23 d =? spec_encode23 d) = true.
 Proof. vm_compute. reflexivity. Qed.
 Lemma sw_enc24_member : below 12 (fun d => spec_is_codeword24 (encode24 d)) = true.
 Proof. vm_compute. reflexivity. Qed.
+Lemma sw_enc24_even : below 12 (fun d => (weight (encode24 d)) mod 2 =? 0) = true.
+Proof. vm_compute. reflexivity. Qed.
 (** among the words with 12 zero data bits only 0 has syndrome 0 *)
 Lemma sw_low_syn : below 11 (fun y => negb (syndrome y =? 0) || (y =? 0)) = true.
 Proof. vm_compute. reflexivity. Qed.
@@ -46,7 +48,7 @@ Proof. vm_compute. reflexivity. Qed.
 Lemma g_divides_x23_1 : pmod 13 (2 ^ 23 + 1) = 0.
 Proof. vm_compute. reflexivity. Qed.
 
-Local Opaque encode23 encode24 syndrome parity popcount enc_rem spec_encode24 spec_encode23 spec_is_codeword24.
+Local Opaque encode23 encode24 syndrome parity popcount enc_rem spec_encode24 spec_encode23 spec_is_codeword24 weight.
 
 Definition D12 (d : N) : Prop := d < 4096.
 
@@ -79,6 +81,8 @@ Lemma enc23_spec d : d < 4096 -> encode23 d = spec_encode23 d.
 Proof. exact (below_eqb 12 _ _ sw_enc23_spec d). Qed.
 Lemma enc24_member d : d < 4096 -> spec_is_codeword24 (encode24 d) = true.
 Proof. exact (below_spec 12 _ sw_enc24_member d). Qed.
+Lemma enc24_even d : d < 4096 -> (weight (encode24 d)) mod 2 = 0.
+Proof. exact (below_eqb 12 (fun d => (weight (encode24 d)) mod 2) (fun _ => 0) sw_enc24_even d). Qed.
 Lemma low_syn y : y < 2048 -> syndrome y = 0 -> y = 0.
 Proof. intros H S. pose proof (below_spec 11 _ sw_low_syn y H) as T. cbv beta in T.
   apply orb_true_iff in T. destruct T as [T|T]; [|apply N.eqb_eq; exact T].
